@@ -107,6 +107,8 @@ func TestVerifRRExec(t *testing.T) {
 
 func vfRunRRStream(t *testing.T, sc *vfRRScript, out *vfWriter) {
 	t.Helper()
+	kept := out.NewKept()
+	defer kept.Flush()
 	streams := map[uint32]*receiverStream{}
 	for _, st := range sc.Steps {
 		switch st.A {
@@ -140,6 +142,7 @@ func vfRunRRStream(t *testing.T, sc *vfRRScript, out *vfWriter) {
 				pkts = append(pkts, streams[s].generateReport(vfRRTime(st.T)))
 			}
 			out.Emit(vfM{"a": "report", "t": st.T, "out": vfRRBlocks(pkts)})
+			kept.Keep(func() any { return vfRRBlocks(pkts) })
 		default:
 			t.Fatalf("VERIF-INFRA unknown action %q", st.A)
 		}
@@ -170,6 +173,8 @@ func (g *vfRRGate) hook(name string, obj any) {
 
 func vfRunRRIcpt(t *testing.T, sc *vfRRScript, out *vfWriter) {
 	t.Helper()
+	kept := out.NewKept()
+	defer kept.Flush()
 	var clock atomic.Int64
 	f, err := NewReceiverInterceptor(
 		ReceiverInterval(200*time.Microsecond),
@@ -286,6 +291,7 @@ func vfRunRRIcpt(t *testing.T, sc *vfRRScript, out *vfWriter) {
 			written = nil
 			mu.Unlock()
 			out.Emit(vfM{"a": "report", "t": st.T, "out": vfRRBlocks(got)})
+			kept.Keep(func() any { return vfRRBlocks(got) })
 		default:
 			t.Fatalf("VERIF-INFRA unknown action %q", st.A)
 		}
